@@ -47,12 +47,46 @@ def _mc_law(rep, seed, n_random, K, invariants, tag):
     return st
 
 
-def _graphs(seed, n, **kw):
-    out = []
-    for i in range(n):
+def _graphs(seed, n, tie_every=0, handmade=0, **kw):
+    out = [double_tie_config(v + seed) for v in range(handmade)]
+    for i in range(n - handmade):
         rng = random.Random(seed * 7919 + i)
-        out.append(gen.gen_config(rng, **kw))
+        out.append(gen.gen_config(rng, tie_rich=bool(tie_every and i % tie_every == tie_every - 1), **kw))
     return out
+
+
+def double_tie_config(variant=0):
+    """Hand-made: producer twice as fast as the consumer, communication delay one or two producer periods: consecutive messages
+    regularly arrive together, exactly at a consumer step's start (double tie, FIFO-equal receive times)."""
+    skip = variant % 2 == 1
+    return dict(nodes=[dict(name="s", nid=0, period=2, delay=0, cdist=[0], advance=False, sched="F", p=3),
+                       dict(name="a", nid=1, period=4, delay=0, cdist=[0, 1], advance=False, sched="F" if variant < 2 else "P", p=5)],
+                conns=[{"out": "s", "in": "a", "name": "s", "blocking": False, "skip": skip, "jitter": "L" if variant % 4 < 2 else "B", "window": 3,
+                        "delay": 2, "cdist": [2, 4]},
+                       {"out": "a", "in": "s", "name": "in_a", "blocking": False, "skip": True, "jitter": "L", "window": 1, "delay": 0, "cdist": [0, 2]}],
+                sup="a")
+
+
+def _force_advance(cfg, mixed):
+    """Make one node advance=True: with blocking and non-blocking inputs (mixed) or with blocking inputs only."""
+    by_in = {}
+    for c in cfg["conns"]:
+        by_in.setdefault(c["in"], []).append(c)
+    cands = [n for n in cfg["nodes"] if len(by_in.get(n["name"], [])) >= (2 if mixed else 1)]
+    if not cands:
+        return
+    n = cands[0]
+    ins = by_in[n["name"]]
+    for k, c in enumerate(ins):
+        blocking = True if not mixed else (k == 0)
+        if blocking and not c["blocking"]:
+            c["blocking"] = True
+            c["jitter"] = "L"
+        if not blocking:
+            c["blocking"] = False
+    n["advance"] = True
+    if not gen.is_supported(cfg):
+        n["advance"] = False
 
 
 def _hist_step(n, override_every=0):
@@ -74,7 +108,7 @@ def c03(tier, seed):
             invariants=["StepsGapFreeNonOverlap", "MessagesCausalFifo", "ConsumerIsFirstEligible", "WindowIsMostRecent"], tag="c03")
     jobs = []
     ng = 10 if quick else 64
-    for i, cfg in enumerate(_graphs(seed + 300, ng, max_window=4)):
+    for i, cfg in enumerate(_graphs(seed + 300, ng, tie_every=2, handmade=2, max_window=4)):
         rng = random.Random(seed + i)
         gated = (i % 3 == 0)
         runs = []
@@ -117,6 +151,7 @@ def c04(tier, seed):
         n = cfg["nodes"][i % len(cfg["nodes"])]
         n["cdist"] = sorted(set(n["cdist"] + [n["period"] + 1, 2 * n["period"] + 1]))
         n["sched"] = "P" if i % 2 else "F"
+        _force_advance(cfg, mixed=(i % 2 == 0))
         runs = [dict(history=_hist_step(rng.randint(4, 9)) + _hist_run(rng.randint(3, 7)))]
         jobs.append(dict(kind="async", id=f"c04g{i}", cfg=cfg, seed=seed + i, gate=False, runs=runs, timeout=600))
     res = engine.run_campaign(rep, jobs, {"C04"})
@@ -159,9 +194,9 @@ def c02(tier, seed):
     # implementation: many schedules x driving styles x real-time factors of the same configuration and initial state,
     # every record must agree with the first one on the common prefix (clauses Deterministic*, Observed*)
     jobs = []
-    ng = 3 if quick else 16
-    nsch = 10 if quick else 60
-    for i, cfg in enumerate(_graphs(seed + 200, ng)):
+    ng = 6 if quick else 16
+    nsch = 12 if quick else 60
+    for i, cfg in enumerate(_graphs(seed + 200, ng, tie_every=2, handmade=2)):
         rng = random.Random(seed + i)
         runs = []
         for s in range(nsch):
@@ -205,6 +240,31 @@ def c02(tier, seed):
             if v["verdict"] != "accept" and engine.CLAUSE_PROPS.get(v["clause"], set()) & {"C02"}:
                 rep.violation(dict(clause=v["clause"]), dict(kind="async_cross", job={k: j[k] for k in j if k != "runs"}, trace_id=t["id"], verdict=v),
                               text=f"{t['id']}: records of two runs of the same configuration disagree: {v['detail'][:600]}")
+    # a run that is not a behaviour of the law while another run of the same configuration and initial state is: the two
+    # records are compared directly (table-only mode); a disagreement on the common prefix is schedule dependence
+    tab = []
+    for key, lst in by_cfg.items():
+        acc = [t for j, t, v in lst if v["verdict"] == "accept"]
+        rej = [(j, t, v) for j, t, v in lst if v["verdict"] != "accept" and not (engine.CLAUSE_PROPS.get(v["clause"], set()) & {"C02"})]
+        if acc and rej:
+            from .. import trace as tr
+
+            for j, t, v in rej:
+                t2 = {k: t[k] for k in t if k != "ref"}
+                t2["id"] = t["id"] + "~tab~" + acc[0]["id"]
+                t2["ref"] = tr.as_ref(acc[0])
+                t2["reflog"] = {n: [] for n in t["log"]}
+                t2["flags"] = dict(t["flags"], tableonly=True)
+                tab.append((j, t2, v))
+    if tab:
+        vs, st3 = engine.validate_parallel([t for _, t, _ in tab])
+        rep.add_tlc(st3)
+        for (j, t, v0), v in zip(tab, vs):
+            if v["verdict"] != "accept":
+                rep.violation(dict(clause=v["clause"], kind="schedule_dependent"),
+                              dict(kind="async_cross", job={k: j[k] for k in j if k != "runs"}, trace_id=t["id"], verdict=v, law_verdict=v0),
+                              text=f"{t['id']}: this run is not a behaviour of the law ({v0['clause']}) and differs from another run of the same "
+                                   f"configuration and initial state: {v['detail'][:500]}")
     for job, run, t, m, v in res:
         if v["verdict"] == "accept":
             rep.nontrivial((job["id"], json.dumps(run.get("sched"), sort_keys=True), tuple(run["history"])))
@@ -232,7 +292,7 @@ def c06(tier, seed):
         if isinstance(jit, dict):
             jit = {n["name"]: jit.get(n["name"], True) for n in cfg["nodes"]}
         runs = [dict(history=_hist_step(rng.randint(4, 8), override_every=(0 if i % 2 else 3)) + _hist_run(rng.randint(2, 5)))]
-        jobs.append(dict(kind="async", id=f"c06g{i}", cfg=cfg, seed=seed + i, gate=False, runs=runs, jit_step=jit,
+        jobs.append(dict(kind="async", id=f"c06g{i}", cfg=cfg, seed=seed + i, gate=False, runs=runs, jit_step=jit, dirty_init=True,
                          use_callback=(True if jit is not False else (i % 2 == 0)), timeout=600))
     res = engine.run_campaign(rep, jobs, {"C06"})
     nexec = 0
@@ -325,7 +385,7 @@ def c05(tier, seed):
     for i, cfg in enumerate(_graphs(seed + 500, ng)):
         for hname, hist in hists:
             runs = [dict(history=hist, sched=dict(seed=seed * 1000 + s * 31 + i, policy=POLICIES[(s + i) % 5])) for s in range(nsch)]
-            jobs.append(dict(kind="async", id=f"c05g{i}/{hname}", cfg=cfg, seed=seed + i, gate=True, runs=runs, keep_choices=False, timeout=1200))
+            jobs.append(dict(kind="async", id=f"c05g{i}/{hname}", cfg=cfg, seed=seed + i, gate=True, runs=runs, keep_choices=False, dirty_init=True, timeout=1200))
         # free-running threads on the riskiest histories (watchdog expiry alone is inconclusive)
         jobs.append(dict(kind="async", id=f"c05g{i}/free", cfg=cfg, seed=seed + i, gate=False, call_timeout=60, timeout=600,
                          runs=[dict(history=C05_HISTORIES["stop_right_after_start"]), dict(history=C05_HISTORIES["many_short_episodes"])]))
